@@ -45,10 +45,14 @@ Definition fnv_offset : N := 14695981039346656037%N.
 Definition fnv_prime : N := 1099511628211%N.
 Definition two64 : N := 18446744073709551616%N.
 
+(* reduction modulo 2^64, computed as a mask (N.land_ones: x mod 2^64 = N.land x (2^64 - 1)) *)
+Definition mask64 : N := 18446744073709551615%N.
+Definition wrap64 (x : N) : N := N.land x mask64.
+
 Fixpoint fnv64a (s : string) (h : N) : N :=
   match s with
   | EmptyString => h
-  | String c r => fnv64a r (((N.lxor h (N_of_ascii c)) * fnv_prime) mod two64)%N
+  | String c r => fnv64a r (wrap64 ((N.lxor h (N_of_ascii c)) * fnv_prime)%N)
   end.
 
 Definition hash_code (D : tree) (n : node) : N := fnv64a (hash_key D n) fnv_offset.
